@@ -168,8 +168,12 @@ def run(tier, rep):
     import re
     full = gen.docs("L1", tier, rep)
     withdef = [d for d in full if re.search(r"\[[aA]\]: ", d)]
-    for k, d in enumerate(gen.sample(withdef, 6000 if q else 80000, C.SEED + 8, keep_short=2000)):
+    incont = [d for d in withdef if re.search(r"(^|\n)\s*([-*+>]|\d+[.)])\s*\[[aA]\]: ", d)]
+    for k, d in enumerate(gen.sample(withdef, 4000 if q else 80000, C.SEED + 8, keep_short=1500)):
         j2.append((("inline_definitions", "store_labels")[k % 2], bases[k % 2], d))
+    for k, d in enumerate(gen.sample(incont, 8000 if q else len(incont), C.SEED + 9, keep_short=3000)):
+        j2.append(("inline_definitions", bases[k % 2], d))
+
     # the two extensions against the barest base (zero preset: nothing else is enabled that could mask a difference)
     zero = gen.cfg_key(gen.BASE_CONFIGS[2])
     for k, d in enumerate(gen.sample(docs, 5000 if q else 60000, C.SEED + 4, keep_short=1500)):
